@@ -732,6 +732,8 @@ class Evaluator(object):
             self.opaque_calls.append((env[f.id].label, "__call__", args, kwargs))
             rv = env[f.id].attrs.get("()") if isinstance(env[f.id], Opaque) else None
             return rv if rv is not None else Opaque("%s()" % env[f.id].label)
+        if isinstance(f, ast.Name) and f.id in env and isinstance(env[f.id], (K, L, D)) and self.prog.resolve(fi.module, f) is None:
+            raise _Raise("TypeError")           # a constant / display is not callable
         if fname in ("getattr", "hasattr") and len(args) >= 2 and isinstance(args[0], Opaque) and isinstance(args[1], K) \
                 and isinstance(args[1].v, str) and getattr(args[0], "closed", False):
             # an opaque object declared with a closed attribute set (rules building a bean): attribute presence is decided
@@ -746,6 +748,13 @@ class Evaluator(object):
         if fname in ("any", "all") and len(args) == 1 and isinstance(args[0], L) and not kwargs:
             truths = [self.truth(x) for x in args[0].elts]
             return K(any(truths) if fname == "any" else all(truths))
+        if fname == "bool" and len(args) == 1 and not kwargs:
+            return K(bool(self.truth(args[0])))
+        if fname == "repr" and len(args) == 1 and not kwargs:
+            a = args[0]
+            if isinstance(a, K):
+                return K(repr(a.v))
+            return Sym("repr(%s)" % getattr(a, "label", "?"), truthy=True, pytype=str)
         if fname == "str" and len(args) == 1:
             a = args[0]
             if isinstance(a, K):
